@@ -86,8 +86,8 @@ Proof.
   intros H. unfold op_add_tree.
   destruct (get_tree w ti) as [t|]; [|exact H]. destruct (get_tree w sti) as [st|]; [|exact H].
   repeat match goal with |- context [if ?c then (Err _, w) else _] => destruct c; [exact H|] end.
-  match goal with |- context [add_nodes w ti p sti ?o b ?d []] => assert (X := WFw_add_nodes o w ti p sti b d [] H);
-    destruct (add_nodes w ti p sti o b d []) as [[r|e] w'] end; exact X.
+  match goal with |- context [add_nodes w ti p sti ?o ?bb ?d []] => assert (X := WFw_add_nodes o w ti p sti bb d [] H);
+    destruct (add_nodes w ti p sti o bb d []) as [[r|e] w'] end; exact X.
 Qed.
 
 Theorem WFw_op_copy_to w sti src ti target add_self b deep : WFw w -> WFw (snd (op_copy_to w sti src ti target add_self b deep)).
